@@ -903,6 +903,19 @@ def attr_cases(tier, rng):
             add(29, [0, alg, 0, plen] + [0] * plen, src="password algorithm")
             add(32770, [0, alg, 0, plen] + [0] * plen, src="password algorithms")
             add(32770, [0, 1, 0, 0, 0, alg, 0, plen] + [0] * plen, src="password algorithms")
+    for plen in (0xfffc, 0xfffd, 0xfffe, 0xffff, 0x8000, 0x0100):
+        add(29, [0, 1, plen >> 8, plen & 255], src="password algorithm, declared parameter length at the 16-bit boundary")
+        add(32770, [0, 2, plen >> 8, plen & 255], src="password algorithms, declared parameter length at the 16-bit boundary")
+        add(32770, [0, 1, 0, 0, 0, 2, plen >> 8, plen & 255], src="password algorithms, second entry with a huge declared parameter length")
+    # multi-byte text around the byte limits (limits are in bytes, not characters)
+    for ty, lim in ((6, 513), (20, 763), (21, 763), (32802, 763), (32771, 255)):
+        for ch in ([0xc3, 0xa9], [0xe2, 0x82, 0xac], [0xf0, 0x9f, 0x98, 0x80]):
+            for n in (lim - len(ch), lim - 1, lim, lim + 1, lim + len(ch), 800 - 800 % len(ch)):
+                k = n // len(ch)
+                v = ch * k + [0x61] * (n - k * len(ch))
+                add(ty, v, src="multi-byte text of %d bytes" % n)
+        add(9, [0, 0, 4, 0] + [0xc3, 0xa9] * 382, src="error reason, 764 bytes of 2-byte characters")
+        add(9, [0, 0, 4, 0] + [0xc3, 0xa9] * 381 + [0x61], src="error reason, 763 bytes of 2-byte characters")
     add(29, [0, 1, 0, 0, 0, 0, 0, 0], src="password algorithm trailing bytes")
     add(32770, [0, 1, 0, 4, 0, 2, 0, 0], src="password algorithms: parameters that read like another entry")
     add(32770, [0, 2, 0, 8, 0, 1, 0, 0, 0, 2, 0, 0], src="password algorithms: parameters that read like two entries")
